@@ -154,3 +154,11 @@ fn c16_limit_offset_handler_any_u64() {
     kani::cover!(true, "end of harness reachable");
     std::mem::forget(conditions);
 }
+
+// A variant of the LimitOffsetHandler harness with a pruning condition list
+// ([Node, NotBeyond Node]: Stop(true) on nodes, Continue(false) on edges) was tried
+// after seeded change C16_2 (an element skipped by the offset loses its Stop): the
+// handlers take `&Vec<QueryCondition>`, and with the conditions on the heap CBMC
+// explores every arm of evaluate_condition including the database reads -- out of
+// memory (10 GB) after 13 minutes. Pruning conditions in the streaming handlers stay
+// outside the C16 claim.
